@@ -191,11 +191,42 @@ func c19Rate(rng *rand.Rand, idx int) []Case {
 	c.Tag = []string{"rate.nd", "rate.zero", "rate.infinity", "rate.malformed"}[special] + ";nt"
 	c.Dist = "rate/" + []string{"N/D", "zero", "infinity", "malformed"}[special]
 	c.Sample = map[string]interface{}{"flag": "-rate=" + v, "meant": []int64{n, per}, "stored": []int64{r.Freq, r.Per}, "unlimited_guard": r.Unlimited}
-	return []Case{raw, c}
+	out := []Case{raw, c}
+	if rng.Intn(3) == 0 {
+		out = append(out, c19RateSeq(rng))
+	}
+	return out
+}
+
+// the flag given several times: each Set acts on what the previous ones stored
+func c19RateSeq(rng *rand.Rand) Case {
+	pool := []string{"50/1m", "20", "7/ms", "3", "infinity", "0", "100/2s", "1/h", "x", "5/", "12/500ms", "9/s"}
+	n := 2 + rng.Intn(3)
+	vals := make([]string, n)
+	for i := range vals {
+		vals[i] = pool[rng.Intn(len(pool))]
+	}
+	r := driver("rate", vals...)
+	var c Case
+	w := &c.W
+	w.Z(12)
+	w.I(len(vals))
+	for _, v := range vals {
+		w.Str(v)
+	}
+	w.I(len(r.Errs))
+	for _, e := range r.Errs {
+		w.Bool(e != "")
+	}
+	w.Z(r.Freq); w.Z(r.Per)
+	c.Tag = "rate.seq;nt"
+	c.Dist = "rate/sequence"
+	c.Sample = map[string]interface{}{"flags": vals, "stored": []int64{r.Freq, r.Per}, "errs": r.Errs}
+	return c
 }
 
 func c19Headers(rng *rand.Rand) []Case {
-	keys := []string{"X-Id", "x-id", "Content-Type", "content-type", "ACCEPT", "a", "X_Under", "Host"}
+	keys := []string{"X-Id", "x-id", "Content-Type", "content-type", "ACCEPT", "a", "X_Under", "Host", "host", "HOST", "hOsT", "User-Agent", "user-agent"}
 	n := 1 + rng.Intn(8)
 	var vals []string
 	var pairs [][2]string
